@@ -802,6 +802,59 @@ func runC10(args []string) int {
 			r.hist("inputs_aimed_state_leak_chain")
 		}
 	}
+	// chains decoded WITH the unknown-field / unknown-message options: each File of the chain, the reported
+	// unknown lists included, must equal what Decode with the same options returns for that file alone
+	{
+		opts := optSet{false, true, true}
+		for k := 0; k < 12; k++ {
+			n := 2 + rg.intn(3)
+			var files []*vfile
+			var solo []string
+			for i := 0; i < n; i++ {
+				f := pool[rg.intn(len(pool))]
+				impl, model, err := w.decode("D", opts, readerSpec{Data: f.data})
+				if err != nil {
+					fmt.Println("driver:", err)
+					return 2
+				}
+				if impl.observableMasked() != model.observableMasked() {
+					r.corrFail("model_vs_impl_solo_opts", "model and implementation differ on a file decoded alone with the unknown options", ioCase{Entry: "D", Hex: hexs(f.data), Corrupt: -1, Cut: -1, Part: ioSched{Family: "whole"}})
+				}
+				if impl.ErrClass != 0 || len(impl.Raw) != 1 {
+					continue
+				}
+				files = append(files, f)
+				solo = append(solo, maskedCanon(impl.Raw[0]))
+			}
+			if len(files) < 2 {
+				continue
+			}
+			in := &ioInput{files: files, corrupt: -1, model: true}
+			in.build()
+			rs := readerSpec{Data: in.data, Sched: makeSched(rg, rg.intn(9), len(in.data))}
+			impl, model, err := w.decode("C", opts, rs)
+			if err != nil {
+				fmt.Println("driver:", err)
+				return 2
+			}
+			rep := ioCase{Entry: "C", Hex: hexs(in.data), Corrupt: -1, Cut: -1, Part: ioSched{Family: "random", Sched: rs.Sched}, Names: []string{"options unknown_fields+unknown_messages"}}
+			if impl.observableMasked() != model.observableMasked() {
+				r.corrFail("model_vs_impl_C_opts", "model and implementation differ on a chain decoded with the unknown options", rep)
+			}
+			if impl.ErrClass != 0 || len(impl.Raw) != len(files) {
+				r.specFail("chained_concat", fmt.Sprintf("DecodeChained with the unknown options: %d Files and error %q for %d valid files", len(impl.Raw), impl.ErrText, len(files)), rep)
+			} else {
+				for i := range files {
+					if got := maskedCanon(impl.Raw[i]); got != solo[i] {
+						r.specFail("chained_concat", fmt.Sprintf("DecodeChained with the unknown options: File #%d differs from decoding that file alone with the same options\n    chain: %.300s\n    alone: %.300s", i+1, tailFrom(got, ";UM"), tailFrom(solo[i], ";UM")), rep)
+						break
+					}
+				}
+			}
+			r.count(fmt.Sprintf("optchain%d", k), true)
+			r.hist("inputs_chain_with_unknown_options")
+		}
+	}
 	phase("lock-step inputs done")
 	// huge announced data sizes (high bytes of the size field corrupted), implementation only
 	for k := 0; k < sizes(o.tier, o.boost, 60, 2000); k++ {
@@ -947,4 +1000,12 @@ func replayIO(r *report, w *world, o runOpts) int {
 		return 2
 	}
 	return r.finish()
+}
+
+
+func tailFrom(s, marker string) string {
+	if k := strings.Index(s, marker); k >= 0 {
+		return s[k:]
+	}
+	return s
 }
